@@ -143,6 +143,13 @@ func checkC06(c *Ctx) {
 	}
 	ruleRestValueConstant(c, dv)
 	ruleNormalisation(c, dv, "R6.5")
+	// R6.6 which of the four transfer functions applies is decided by Analog.Bidirectional: the parser must derive it
+	// from the presence of the negative field
+	if pf := newParserFacts(c); pf.err == nil {
+		ruleFieldCorrespondenceFor(c, pf, tomlLeaves(c), "R6.6", func(dest string) bool { return dest == "Analog.Bidirectional" })
+	}
+	c.MinCount("R6.6", 3)
+	ruleFlipAfterDeadzone(c, dv, "R6.7")
 	c.MinCount("R6.1", 2)
 	c.MinCount("R6.2", 2)
 	c.MinCount("R6.3", 6)
@@ -616,4 +623,142 @@ func ruleNormalisation(c *Ctx, dv *dev, rule string) {
 		}
 		c.Bad(rule, key, c.P.Pos(pos), bad)
 	}
+}
+
+// ruleFlipAfterDeadzone: R6.7 "deadzone-shaped, optionally flipped": the position that is compared with the deadzone
+// is the un-flipped one; flipping first moves the deadzone of an unsigned axis to the wrong physical end.  Decided on
+// the SSA: no operand of a comparison with the deadzone value is computed inside a branch controlled by FlipAxis.
+func ruleFlipAfterDeadzone(c *Ctx, dv *dev, rule string) {
+	fn := dv.fn["handleABSEvent"]
+	hosts := []*ssa.Function{fn}
+	for h := range dv.newHelpers() {
+		if dv.ownerOf(h) == fn {
+			hosts = append(hosts, h)
+		}
+	}
+	pos := c.P.Pos(fn.Pos())
+	isFlipLoad := func(v ssa.Value) bool {
+		for i := 0; i < 4; i++ {
+			switch x := v.(type) {
+			case *ssa.UnOp:
+				if x.Op == token.NOT {
+					v = x.X
+					continue
+				}
+				if f := fieldOfAddr(x.X); f != nil && f.Name() == "FlipAxis" {
+					return true
+				}
+				return false
+			case *ssa.Field:
+				return x.X.Type().Underlying().(*types.Struct).Field(x.Field).Name() == "FlipAxis"
+			default:
+				return false
+			}
+		}
+		return false
+	}
+	n, bad := 0, ""
+	for _, host := range hosts {
+		// blocks controlled by a FlipAxis test
+		region := map[*ssa.BasicBlock]bool{}
+		for _, b := range host.Blocks {
+			ifi, ok := b.Instrs[len(b.Instrs)-1].(*ssa.If)
+			if !ok || !isFlipLoad(ifi.Cond) {
+				continue
+			}
+			for _, s := range b.Succs {
+				if len(s.Preds) != 1 {
+					continue // the join
+				}
+				for _, d := range host.Blocks {
+					if s.Dominates(d) {
+						region[d] = true
+					}
+				}
+			}
+		}
+		vw := NewFnView(c.P, host)
+		mentionsDeadzone := func(v ssa.Value) bool {
+			s := vw.Term(v).String()
+			return strings.Contains(s, "Deadzones[") || strings.Contains(s, "DefaultDeadzone[") || strings.Contains(s, "call:") && strings.Contains(s, "deadzone")
+		}
+		dependsOnFlip := func(v ssa.Value) bool {
+			seen := map[ssa.Value]bool{}
+			var rec func(v ssa.Value, depth int) bool
+			rec = func(v ssa.Value, depth int) bool {
+				if v == nil || seen[v] || depth > 20 {
+					return false
+				}
+				seen[v] = true
+				in, ok := v.(ssa.Instruction)
+				if !ok {
+					return false
+				}
+				if region[in.Block()] {
+					return true
+				}
+				switch x := v.(type) {
+				case *ssa.Phi:
+					for _, e := range x.Edges {
+						if rec(e, depth+1) {
+							return true
+						}
+					}
+				case *ssa.BinOp:
+					return rec(x.X, depth+1) || rec(x.Y, depth+1)
+				case *ssa.UnOp:
+					if a, isAlloc := x.X.(*ssa.Alloc); isAlloc {
+						for _, r := range *a.Referrers() {
+							if st, ok := r.(*ssa.Store); ok && st.Addr == a && (region[st.Block()] || rec(st.Val, depth+1)) {
+								return true
+							}
+						}
+						return false
+					}
+					return rec(x.X, depth+1)
+				case *ssa.Convert:
+					return rec(x.X, depth+1)
+				case *ssa.Call:
+					for _, a := range x.Call.Args {
+						if rec(a, depth+1) {
+							return true
+						}
+					}
+				}
+				return false
+			}
+			return rec(v, 0)
+		}
+		for _, b := range host.Blocks {
+			for _, in := range b.Instrs {
+				bo, ok := in.(*ssa.BinOp)
+				if !ok {
+					continue
+				}
+				switch bo.Op {
+				case token.LSS, token.LEQ, token.GTR, token.GEQ:
+				default:
+					continue
+				}
+				var other ssa.Value
+				switch {
+				case mentionsDeadzone(bo.Y) && !mentionsDeadzone(bo.X):
+					other = bo.X
+				case mentionsDeadzone(bo.X) && !mentionsDeadzone(bo.Y):
+					other = bo.Y
+				default:
+					continue
+				}
+				n++
+				if dependsOnFlip(other) {
+					bad = fmt.Sprintf("the position compared with the deadzone at %s has already been flipped (it is computed inside a branch controlled by FlipAxis): for an unsigned axis the deadzone then sits at the wrong physical end and the end stop no longer maps to the end of the range", c.P.Pos(bo.Pos()))
+				}
+			}
+		}
+	}
+	if n == 0 {
+		c.Undec(rule, "device.handleABSEvent/deadzone-before-flip", pos, "no comparison with the deadzone value found")
+		return
+	}
+	c.Check(bad == "", rule, "device.handleABSEvent/deadzone-before-flip", pos, fmt.Sprintf("%d comparison(s) with the deadzone, none on a flipped position", n), bad)
 }
